@@ -247,6 +247,19 @@ CLAIMS = {
             "custom MIR rules: API-usage whitelist on a type, error discipline, dominance on ?-success edges, aggregate "
             "provenance, ADT interior-mutability scan, impl predicates",
             "3/C20"),
+    "C19": ("Decides only the in-repository dispatch, from resolved callees on built MIR: each of the 15 "
+            "__private_capture[_anon]_as_X hooks calls the capture trait of its own mode once on self and returns it; every "
+            "`impl CaptureX for T` builds its value with the Value constructor of that mode (capture_* keeps the type id, "
+            "from_* anonymous; concrete-type impls use to_value) and returns Some of it; every Value::capture_*/from_* calls "
+            "the like-named value-bag constructor; optional hooks are into_option().and_then(map) and Capture* for Option<T> "
+            "is and_then; macro-built props skip a None entry and continue enumerating (the None edge re-enters the loop and "
+            "reaches no visitor call); Value and OwnedValue forward sval/serde/Debug/Display to the wrapped bag; buffering "
+            "into the thread-local ambient context only downcasts (TraceId/SpanId) or to_shared()s and never calls a "
+            "parse/format/cast function; owned/shared copies are the bag's. NOT decided (the larger part of the property): "
+            "what consumers observe through value-bag / sval / serde bridging.",
+            "custom MIR rules: resolved-callee mode tables (writer/reader agreement across three layers), loop-edge "
+            "reachability, forbidden-call whitelist",
+            "3/C19"),
 }
 
 REASONS_NOT_YET = "check not built yet (build in progress; DESIGN.md section 3 lists the planned rules)"
